@@ -47,6 +47,18 @@ def peel(n):
         return n
 
 
+def peel_try(n):
+    """peel() that also tells whether a `?` was looked through"""
+    tried = False
+    while True:
+        n = strip(n)
+        if is_try(n):
+            n = try_inner(n)
+            tried = True
+            continue
+        return n, tried
+
+
 def diverges(n):
     return n is not None and n.get("ty") == "!"
 
@@ -515,7 +527,7 @@ class Sem:
     def project(self, expr, frame, proj, depth=0):
         """apply tuple projections to an expression: through tuple literals and through the tail of inlined local helpers.
         Returns (node, frame, remaining projection)"""
-        e = peel(expr)
+        e, tried = peel_try(expr)
         p = tuple(proj)
         while p and p[0][0] == "t" and depth < 4:
             if e.get("k") == "Tup" and p[0][1] < len(e["es"]):
@@ -530,13 +542,22 @@ class Sem:
                     b = self.lookup(t, tf)
                     if b is not None and b.expr is not None and not b.assigns and not b.proj:
                         t, tf = peel(b.expr), b.frame
-                    e, frame = peel(t), tf
+                    t = peel(t)
+                    if tried and ctor_head(t) in ("Result::Ok", "Option::Some") and len(t.get("args", [])) == 1:
+                        # `helper(..)?`: the value is the payload of the helper's success result
+                        t, tried2 = peel_try(t["args"][0])
+                        tried = tried2
+                    elif tried:
+                        break
+                    e, frame = t, tf
                     depth += 1
                     continue
             if e.get("k") == "Path":
                 b = self.lookup(e, frame)
                 if b is not None and b.expr is not None and not b.assigns and not b.proj and b.kind in ("let", "arg"):
-                    e, frame = peel(b.expr), b.frame
+                    e, t2 = peel_try(b.expr)
+                    tried = tried or t2
+                    frame = b.frame
                     depth += 1
                     continue
             break
